@@ -68,10 +68,22 @@ def updEntity (st : St) (f : Entity → Entity) : Option St :=
   | .entity e :: r => some { st with decls := .entity (f e) :: r }
   | _ => none
 
+def addItem (rules : List Rule) (it : RuleItem) : List Rule :=
+  match rules.reverse with
+  | r :: rs => (({ r with items := r.items ++ [it] }) :: rs).reverse
+  | [] => rules
+
 def updRule (st : St) (it : RuleItem) : Option St :=
-  updEntity st fun e => match e.rules.reverse with
-    | r :: rs => { e with rules := (({ r with items := r.items ++ [it] }) :: rs).reverse }
-    | [] => e
+  match st.decls with
+  | .entity e :: r => some { st with decls := .entity { e with rules := addItem e.rules it } :: r }
+  | .type t :: r => some { st with decls := .type { t with rules := addItem t.rules it } :: r }
+  | _ => none
+
+def addRule (st : St) (n : String) (l : Nat) : Option St :=
+  match st.decls with
+  | .entity e :: r => some { st with decls := .entity { e with rules := e.rules ++ [⟨n, l, []⟩] } :: r }
+  | .type t :: r => some { st with decls := .type { t with rules := t.rules ++ [⟨n, l, []⟩] } :: r }
+  | _ => none
 
 def updIface (st : St) (it : Item) : Option St :=
   match st.ifaces with
@@ -168,19 +180,20 @@ def handle (st : St) (line : String) : St × String :=
   | ["inv", n, l, t, fn, fl] => ok (do
       let l ← l.toNat?; let t ← parseTypeRef t; let fl ← fl.toNat?
       updEntity st fun e => { e with attrs := e.attrs ++ [⟨n, l, t, some (fn, fl), none⟩] })
-  | ["rule", n, l] => ok (l.toNat? >>= fun l => updEntity st fun e => { e with rules := e.rules ++ [⟨n, l, []⟩] })
+  | ["rule", n, l] => ok (l.toNat? >>= fun l => addRule st n l)
+  | ["bareattr", n] => ok (updRule st (.bareAttr n))
   | ["call", fn, argc] => ok (argc.toNat? >>= fun a => updRule st (.call fn a))
   | ["selfattr", n] => ok (updRule st (.selfAttr n))
   | ["smallreal", h] => ok (unhexS h >>= fun t => updRule st (.smallReal t))
   | ["type", n, l, "ref", t] => ok (do
       let l ← l.toNat?; let t ← parseTypeRef t
-      pure { st with decls := .type ⟨n, l, .ref t⟩ :: st.decls })
+      pure { st with decls := .type ⟨n, l, .ref t, []⟩ :: st.decls })
   | ["type", n, l, "enum", items] => ok (do
       let l ← l.toNat?; let it ← parsePairs items
-      pure { st with decls := .type ⟨n, l, .enum it⟩ :: st.decls })
+      pure { st with decls := .type ⟨n, l, .enum it, []⟩ :: st.decls })
   | ["type", n, l, "select", items] => ok (do
       let l ← l.toNat?; let it ← parsePairs items
-      pure { st with decls := .type ⟨n, l, .select it⟩ :: st.decls })
+      pure { st with decls := .type ⟨n, l, .select it, []⟩ :: st.decls })
   | ["func", n, l, k] => ok (do
       let l ← l.toNat?; let k ← k.toNat?
       pure { st with decls := .func ⟨n, l, k⟩ :: st.decls })
